@@ -715,6 +715,7 @@ type acceptEnv struct {
 	run       *vk.Run
 	lc        limitCfg
 	transport string
+	upgraded  bool // opened on polling, upgraded to websocket before the messages are sent
 	srv       *rig.EIOServer
 	sr        *srvRec
 }
@@ -726,13 +727,20 @@ func trShort(t string) string {
 	return t
 }
 
+func (a *acceptEnv) dialTransports() []string {
+	if a.upgraded {
+		return []string{"polling", "websocket"}
+	}
+	return []string{a.transport}
+}
+
 func (a *acceptEnv) dial() (*gconn, error) {
 	cr := newRecorder()
 	var cli eio.ClientSocket
 	var err error
 	ok := vk.Watchdog(30*time.Second, func() {
 		cli, err = eio.Dial(a.srv.URL, &eio.Callbacks{OnPacket: cr.onPackets, OnError: cr.onError, OnClose: cr.onClose},
-			&eio.ClientConfig{Transports: []string{a.transport}, WebSocketDialOptions: &websocket.DialOptions{CompressionMode: websocket.CompressionDisabled}})
+			&eio.ClientConfig{Transports: a.dialTransports(), WebSocketDialOptions: &websocket.DialOptions{CompressionMode: websocket.CompressionDisabled}})
 	})
 	if !ok {
 		return nil, fmt.Errorf("eio.Dial did not return within 30 s")
@@ -745,6 +753,9 @@ func (a *acceptEnv) dial() (*gconn, error) {
 		cli.Close()
 		return nil, fmt.Errorf("server never reported the session %s", cli.ID())
 	}
+	if a.upgraded {
+		vk.WaitUntil(15*time.Second, func() bool { return cli.TransportName() == "websocket" && srec.socket().TransportName() == "websocket" })
+	}
 	if cli.TransportName() != a.transport {
 		cli.Close()
 		return nil, fmt.Errorf("client runs on %s, wanted %s", cli.TransportName(), a.transport)
@@ -753,14 +764,14 @@ func (a *acceptEnv) dial() (*gconn, error) {
 }
 
 func (a *acceptEnv) fields(m amsg) map[string]any {
-	return map[string]any{"transport": a.transport, "dir": m.dir, "peer": "go-client", "kind": kindName(m.binary), "size_class": m.class, "limit": a.lc.name}
+	return map[string]any{"transport": a.transport, "upgraded": a.upgraded, "dir": m.dir, "peer": "go-client", "kind": kindName(m.binary), "size_class": m.class, "limit": a.lc.name}
 }
 
 // sendOne sends one message and waits for its delivery. Returns false when the connection must be replaced.
 func (a *acceptEnv) sendOne(c *gconn, m amsg) bool {
 	run := a.run
 	run.Eval(1)
-	sig := fmt.Sprintf("accept/%s/%s/%s/%s/L=%s", trShort(a.transport), m.dir, kindName(m.binary), m.class, a.lc.name)
+	sig := fmt.Sprintf("accept/%s/up=%v/%s/%s/%s/L=%s", trShort(a.transport), a.upgraded, m.dir, kindName(m.binary), m.class, a.lc.name)
 	replay := map[string]any{"part": "accept", "limit": a.lc.name, "transport": a.transport, "dir": m.dir, "binary": m.binary, "data_len": m.n, "size_class": m.class}
 	if f := c.fault(); f != "" {
 		// the connection died after the previous message had been delivered
@@ -935,7 +946,13 @@ func runAccept(run *vk.Run, lc limitCfg, transport string, reps int) {
 	}
 	defer srv.Close()
 	a := &acceptEnv{run: run, lc: lc, transport: transport, srv: srv, sr: sr}
-	r := run.Rand("c13-accept-" + lc.name + "-" + transport)
+	if transport == "upgraded" {
+		// the session is opened on polling and upgraded; the messages then travel over the websocket it was
+		// upgraded to, which must accept what a directly opened websocket accepts
+		a.transport, a.upgraded = "websocket", true
+		transport = "websocket"
+	}
+	r := run.Rand("c13-accept-" + lc.name + "-" + transport + fmt.Sprint(a.upgraded))
 	run.Count("accept_cells", 1)
 	fails, bfails, slow := 0, 0, 0
 	var c *gconn
@@ -1623,7 +1640,7 @@ func main() {
 		go func(lc limitCfg) { defer wg.Done(); runEnforce(run, lc, run.Pick(1, 5)) }(lc)
 	}
 	for _, lc := range accLimits {
-		for _, tr := range []string{"polling", "websocket"} {
+		for _, tr := range []string{"polling", "websocket", "upgraded"} {
 			wg.Add(1)
 			go func(lc limitCfg, tr string) { defer wg.Done(); runAccept(run, lc, tr, run.Pick(1, 6)) }(lc, tr)
 		}
